@@ -1,0 +1,23 @@
+//go:build verif
+
+package frugal
+
+import "sync/atomic"
+
+// VerifYieldFunc is called at every instrumented point when the `verif` build
+// tag is set. It is only ever set by the verification harness.
+var verifYieldFunc atomic.Value // func(point string, id uint64)
+
+// SetVerifYield installs (or, with nil, removes) the yield callback.
+func SetVerifYield(f func(point string, id uint64)) {
+	if f == nil {
+		f = func(string, uint64) {}
+	}
+	verifYieldFunc.Store(f)
+}
+
+func verifYield(point string, id uint64) {
+	if f, ok := verifYieldFunc.Load().(func(string, uint64)); ok && f != nil {
+		f(point, id)
+	}
+}
